@@ -7,6 +7,14 @@ claimed={
   text='Reference-model runtime monitor: rule-free schemas generated from an abstract model (depth<=5, optional/nullable/any, both key-optionality options) are rendered and every generated document (conforming-by-construction, single-feature near misses, unrelated) is validated by the real library and judged by an independent example-shape oracle; metamorphic real-vs-real monitors for member order and for KeysAreOptionalByDefault; small-scope exhaustive part (all schemas <=3 nodes x all documents <=3/4 nodes). Held on the executions observed (3e6 quick / 8e7 thorough comparisons), not a proof.',
   note='Trusts the reference oracle (internal/model/accept.go, written from the statement) and that the renderer produces the schema the model describes (checked indirectly: Check must accept it, else the schema is skipped and counted).',
   technique='reference-model monitor over generated schema/document pairs + metamorphic monitors', ref='7 (C01)'),
+ 'C02': dict(category='exploration',
+  text='Reference-model runtime monitor over (scalar rule set, probe) pairs: rule sets built to be Check-accepted (min/max/exclusive, precision/decimal, lengths, 20 RE2 patterns, enums with kind-colliding texts, const, five formats, nullable, explicit types), probes on, just inside and just outside every bound in several numeral and escape spellings; metamorphic inertness monitor (a false-valued rule inserted anywhere changes neither Check nor any verdict). ~9e5 (quick) / 2e8 (thorough) comparisons; held on what was observed.',
+  note='Trusts the scalar part of internal/model (big.Rat bounds, own date/datetime/uuid recognisers; email/uri judged only on hand-classified clear cases). The numeral class -?0[eE]digits is left to C10.',
+  technique='reference-model monitor with boundary-value probes + metamorphic inertness monitor', ref='7 (C02)'),
+ 'C03': dict(category='exploration',
+  text='Reference-model runtime monitor over generated type graphs (<=6 user types; @T, @A|@B, {type:"@T"}, or-lists of names/built-ins/inline rule-sets, nullable references, allOf chains and diamonds, all additionalProperties modes, key shortcuts, regex and enum types, legal recursion): union/inheritance semantics are computed on the abstract model and compared with Validate for conforming, near-miss and unrelated documents; plus a real-vs-real differential (a position referencing @T accepts what stand-alone T accepts). Held on the executions observed.',
+  note='Cells the statements do not decide are Unspecified and not compared (listed in the evidence assumptions). Graphs the generator believes legal but Check rejects are skipped and counted.',
+  technique='reference-model monitor over generated type graphs + reference-vs-standalone differential', ref='7 (C03)'),
  'C19': dict(category='exploration',
   text='Bounded-exhaustive runtime monitoring: every operation sequence up to length 5 (quick) / 6 (thorough) over 14 mutating operations is executed on the three real generated maps and on a reference insertion-ordered map with the complete observable state compared after every step; random sequences to length 200; concurrent workloads under the Go race detector with quiescent-state invariants. Held on what was executed; not a proof beyond the bounds.',
   note='Reference model = slice of pairs written from the property statement; race freedom is judged only on the schedules the Go runtime produced; the internal Constraints map is reached through an overlay-injected hook (vh_cmap) and is reported inconclusive if the hook no longer compiles.',
